@@ -699,7 +699,8 @@ impl VariantAttributesInfo {
                     "The `rename_all` attribute is defined twice.",
                 ));
             }
-            self.rename_all = Some(rename_all)
+            self.rename_all = Some(rename_all);
+            self.rename_all_span = other.rename_all_span;
         }
         if let Some(rename) = other.rename {
             if let Some(self_rename) = &self.rename {
